@@ -177,4 +177,18 @@ def lit (p : Bytes) : P Unit := do
 
 def str (s : String) : Bytes := s.toUTF8.toList
 
+/-- index of the first byte that satisfies `f` -/
+def indexWhere (f : UInt8 → Bool) : Bytes → Option Nat
+  | [] => none
+  | x :: xs => if f x then some 0 else (indexWhere f xs).map (· + 1)
+
+/-- `pars.Until(filter)` (go-pars `untilFilter`): `Push`; `Next` / `Advance` byte by byte up to the
+first byte the filter accepts, which is NOT consumed; the token is the `Trail` (it pops the frame).
+At the end of the input `Pop` and an error: position and saved positions are as on entry. -/
+def untilFilter (f : UInt8 → Bool) : P Bytes := do
+  let s ← getS
+  match indexWhere f s.rest with
+  | none => fail
+  | some i => do advanceN i; pure (s.rest.take i)
+
 end Gts.Pars
